@@ -110,12 +110,29 @@ class BV:
 
     __rmul__ = __mul__
 
-    def __pow__(self, k):
-        assert isinstance(k, int) and k >= 0
+    def __pow__(self, k, mod=None):
+        assert isinstance(k, int) and 0 <= k <= 8
         r = BV.const(1)
         for _ in range(k):
             r = r * self
-        return r
+        return r if mod is None else r % mod
+
+    def __rpow__(self, base):
+        # base ** proxy for a small exponent range: decided value by value
+        if self.is_const():
+            return base ** self.lo
+        if self.lo < 0:
+            raise TypeError("symbolic exponent may be negative")
+        lo, hi = self.lo, self.hi
+        while lo < hi:  # binary search by path decisions (the path condition usually pins a small range)
+            mid = (lo + hi) // 2
+            if self <= mid:
+                hi = mid
+            else:
+                lo = mid + 1
+        if lo > 4096:
+            raise TypeError("symbolic exponent too large")
+        return base ** lo
 
     def __lshift__(self, k):
         assert isinstance(k, int) and k >= 0
@@ -166,9 +183,25 @@ class BV:
 
     __rxor__ = __xor__
 
+    def __rmod__(self, o):
+        return BV.lift(o).__mod__(self)
+
     def __mod__(self, p):
         p = BV.lift(p)
-        assert p.is_const() and p.lo > 0, "modulus must be a positive constant"
+        if not p.is_const():
+            # symbolic modulus: zero raises as in Python, a negative one is outside the fragment
+            if p == 0:
+                raise ZeroDivisionError("integer modulo by zero")
+            if p.lo < 0 and p < 0:
+                raise Inconclusive("negative symbolic modulus")
+            w = max(self.width(), p.width()) + 1
+            a, mm = self.ext(w), p.ext(w)
+            r = z3.SRem(a, mm)
+            t = z3.If(r < 0, r + mm, r)
+            hi = max(p.hi - 1, 0)
+            rw = width_for(0, hi)
+            return BV(z3.Extract(rw - 1, 0, t) if rw < w else t, 0, hi)
+        assert p.lo > 0, "modulus must be positive"
         m = p.lo
         if self.lo >= 0 and self.hi < m:
             return self
